@@ -29,13 +29,10 @@ func runC02(c *Ctx) {
 	// chosen by the stored status.currentReplicas, so that counter has to leave out what is on its way out -- a pod
 	// the update walk has just deleted and that is still terminating must not be counted back in, or its replacement
 	// is built from the old revision again and the roll-out never ends (the census rule of C12, as a clause of this property)
-	{
-		n0 := len(c.Obs)
-		c.only = map[string]string{"C12.2-census-live-pods-only": "C02.8-revision-counters-leave-out-terminating-pods"}
-		runC12(c)
-		c.only = nil
-		c.Floor("C02.8-census-revision-counters", len(c.Obs)-n0, 2)
-	}
+	c.withOnly(map[string]string{"C12.2-census-live-pods-only": "C02.8-revision-counters-leave-out-terminating-pods"}, nil, "C02.8-census-revision-counters", 2, func() { runC12(c) })
+	// "failed or succeeded pods inside the desired set": the reconcile can replace them only if it is handed them, so the
+	// claim keeps every pod that is a member by name, whatever its phase (the filter rule of C10.1, as a clause of this property)
+	c.withOnly(map[string]string{"C10.1-membership-filter": "C02.9-every-member-is-claimed"}, nil, "C02.9-claim-filter", 1, c.claimConstruction)
 	c.quiescencePossible()
 	c.statusWriteGuard()
 	c.stateless("C02.3")
